@@ -144,7 +144,8 @@ def run_traces(binary, scen, seeds, outdir):
 
 BAD_KINDS = {"crash": "crash (signal)", "dead_access": "access to reclaimed memory", "double_free": "double free",
              "quiescent": "all kernel threads idle while the scenario has not finished (lost wake-up / deadlock)",
-             "budget": "step budget exhausted (livelock)", "oob": "out-of-bounds access"}
+             "budget": "step budget exhausted (livelock)", "oob": "out-of-bounds access",
+             "xstack": "another kernel thread accessed the stack of a fiber that is running (use after the frame may be gone)"}
 
 
 def prefilter(evs):
@@ -153,7 +154,7 @@ def prefilter(evs):
     ended = False
     for e in evs:
         k = e.get("k")
-        if k in ("crash", "dead_access", "double_free", "oob"):
+        if k in ("crash", "dead_access", "double_free", "oob", "xstack"):
             bad.append((k, e))
         elif k in ("quiescent", "budget"):
             bad.append((k, e))
